@@ -22,6 +22,7 @@ func registerExtra(e *Engine) {
 	registerABI(e)
 	registerABIJSON(e)
 	registerEthTx(e)
+	registerSkiplist(e)
 	registerCrypto(e)
 }
 
